@@ -17,5 +17,6 @@ INVARIANT UndecidedIsGeneric
 INVARIANT NoUB
 INVARIANT TypeGuard
 INVARIANT BoolGuard
+INVARIANT ExactCompare
 INVARIANT Publish
 CHECK_DEADLOCK FALSE
